@@ -26,6 +26,7 @@ inductive Spec where
   | dropped (d : Nat) (polled : Bool)
   | timeout (inner : Inner) (limit : Nat)
   | interval (start period n work : Nat)
+  | noise                  -- a task woken repeatedly from another thread; it owns no timer
 deriving Repr
 
 /-- where an interval task stands -/
@@ -56,6 +57,7 @@ def tickToken (_start _period : Nat) (ticks : List Nat) : String := s!"ticks#{ti
 the task can make further progress right now (`false` = it returned `Poll::Pending` or finished). -/
 def trans (w : Wheel) (now id : Nat) : Task → Wheel × Task × Bool
   | .done t => (w, .done t, false)
+  | .init .noise => (w, .done "noise", false)
   | .init (.sleep d) =>
     match Sleep.new w now d with
     | (w', some s) => (w', .sleeping s, true)
@@ -197,6 +199,7 @@ def parseSpec (s : String) : Option Spec :=
     match parseOff a, parseOff l with
     | some a, some l => some (.timeout (.sleep a) l)
     | _, _ => none
+  | ["n", _count, _every] => some .noise
   | ["i", st, p, n, wk] =>
     match parseOff st, p.toNat?, n.toNat?, wk.toNat? with
     | some st, some p, some n, some wk => some (.interval st p n wk)
